@@ -10,7 +10,7 @@ import (
 
 func init() {
 	register("C06", propMeta{
-		Explanation: "E-GUARD + E-PROV + E-OWN. O-1 matcher siblings agree: in IsSupersetOf and IsMember the receiver's suffix is always the needle (second argument of strings.HasSuffix, or one side of == in the exact branch); in the exact branch IsSupersetOf can yield true only behind 'the other rule is exact too'; NewNameMatcher strips one trailing $ and one leading ^ and takes exact from the leading ^. With these shapes 'superset implies membership' follows from transitivity of 'is a suffix of' (paper argument); the checker decides the shapes. O-2 broker rejects before registering: in ProxyPolls RequestOffer (the only way a poll becomes matchable; single caller) is reachable only through the true edge of CheckProxyRelayPattern applied to the decoded pattern and support flag; on the false edge the response is the explicit rejection; CheckProxyRelayPattern returns nothing but proxyPattern.IsSupersetOf(brokerPattern) with the receiver built from the proxy's (or, exactly on the legacy edge, the presumed) pattern and the argument from the allowed pattern. O-3 proxy validates before it can dial: the only WebSocket dial of proxy/lib is in datachannelHandler, reached only through the adaptor built in runSession with the polled relay URL; that construction is reachable only through (relayURL == \"\" or IsMember(parsed host)) and only through (relayURL == \"\" or AllowNonTLSRelay or scheme == wss), with parsed = url.Parse(relayURL) behind its err == nil edge and the matcher built from the proxy's own pattern; the URL dialled derives from that same string; Start refuses patterns without a trailing $. Added after the second seeding round: O-2b the stored pattern fields derive, through the installing function's parameters and main's arguments, from the flag variables registered under -allowed-relay-pattern and -default-relay-pattern respectively; the relay-URL predicates may live in a boolean helper of runSession (summarised by its true-returning paths).",
+		Explanation: "E-GUARD + E-PROV + E-OWN. O-1 matcher siblings agree: in IsSupersetOf and IsMember the receiver's suffix is always the needle (second argument of strings.HasSuffix, or one side of == in the exact branch); in the exact branch IsSupersetOf can yield true only behind 'the other rule is exact too'; NewNameMatcher strips one trailing $ and one leading ^ and takes exact from the leading ^. With these shapes 'superset implies membership' follows from transitivity of 'is a suffix of' (paper argument); the checker decides the shapes. O-2 broker rejects before registering: in ProxyPolls RequestOffer (the only way a poll becomes matchable; single caller) is reachable only through the true edge of CheckProxyRelayPattern applied to the decoded pattern and support flag; on the false edge the response is the explicit rejection; CheckProxyRelayPattern returns nothing but proxyPattern.IsSupersetOf(brokerPattern) with the receiver built from the proxy's (or, exactly on the legacy edge, the presumed) pattern and the argument from the allowed pattern. O-3 proxy validates before it can dial: the only WebSocket dial of proxy/lib is in datachannelHandler, reached only through the adaptor built in runSession with the polled relay URL; that construction is reachable only through (relayURL == \"\" or IsMember(parsed host)) and only through (relayURL == \"\" or AllowNonTLSRelay or scheme == wss), with parsed = url.Parse(relayURL) behind its err == nil edge and the matcher built from the proxy's own pattern; the URL dialled derives from that same string; Start refuses patterns without a trailing $. Added after the second seeding round: O-2b the stored pattern fields derive, through the installing function's parameters and main's arguments, from the flag variables registered under -allowed-relay-pattern and -default-relay-pattern respectively; the relay-URL predicates may live in a boolean helper of runSession (summarised by its true-returning paths). Added after the fourth seeding round: O-3c AllowNonTLSRelay and RelayDomainNamePattern are assigned only in the proxy's main, from the flags of those names, the permission defaulting to false; O-4/C12 the decoder's 'supports relay pattern' flag is the presence of the field (C12's default obligations).",
 		NotDecided:  "the string law over all patterns and hostnames (value-level), DNS/redirect behaviour of the WebSocket dialer, the operator's choice of patterns.",
 		Assumptions: []string{"strings.HasSuffix/TrimSuffix/TrimPrefix/HasPrefix behave as documented"},
 	}, runC06)
@@ -21,6 +21,12 @@ func runC06(c *Ctx) {
 	c.checkBrokerRelayGate()
 	c.checkBrokerPatternWiring()
 	c.checkProxyRelayGate()
+	c.checkProxyPolicyIsConfiguration()
+	// which pattern the broker tests depends on the decoder's 'supports relay pattern' flag being the presence
+	// of the field (C12's default obligations)
+	c.prefix = "O-4/C12:"
+	c.checkMessageDefaults()
+	c.prefix = ""
 }
 
 // checkBrokerPatternWiring: the two pattern fields of the broker context are
@@ -156,16 +162,17 @@ func (c *Ctx) checkMatcherShapes() {
 					return
 				}
 				nEq++
-				p1 := reachableWithout(sup, in, exactTrue(sup))
-				p2 := reachableWithout(sup, in, otherExact)
-				c.check(len(otherExact) > 0 && p1 == nil && p2 == nil, rule, "IsSupersetOf: an exact rule is a superset only of the identical exact rule", p.instrPos(in), "suffix equality evaluated only when both rules are exact",
+				ok1, _ := consumedOnlyBehind(sup, x, exactTrue(sup))
+				ok2, _ := consumedOnlyBehind(sup, x, otherExact)
+				c.check(len(otherExact) > 0 && ok1 && ok2, rule, "IsSupersetOf: an exact rule is a superset only of the identical exact rule", p.instrPos(in), "suffix equality evaluated only when both rules are exact",
 					"in the exact branch the suffixes are compared without requiring the other rule to be exact: '^a$' is judged a superset of 'a$', which accepts hosts the exact rule rejects")
 			case *ssa.Call:
 				if calleeName(x) != "strings.HasSuffix" {
 					return
 				}
 				nHS++
-				good := paramField(sup, x.Call.Args[0], "suffix") && recvField(sup, x.Call.Args[1], "suffix") && reachableWithout(sup, in, exactFalse(sup)) == nil && len(exactFalse(sup)) > 0
+				okUse, _ := consumedOnlyBehind(sup, x, exactFalse(sup))
+				good := paramField(sup, x.Call.Args[0], "suffix") && recvField(sup, x.Call.Args[1], "suffix") && okUse && len(exactFalse(sup)) > 0
 				c.check(good, rule, "IsSupersetOf: suffix rule tests HasSuffix(other.suffix, own.suffix)", p.instrPos(in), "receiver's suffix is the needle", "receiver and argument of the suffix test are swapped (or the test is not confined to the non-exact branch): a narrower pattern is judged a superset of a wider one")
 			}
 		})
@@ -202,12 +209,14 @@ func (c *Ctx) checkMatcherShapes() {
 			case *ssa.BinOp:
 				if x.Op == token.EQL && ((x.X == ssa.Value(s) && recvField(mem, x.Y, "suffix")) || (x.Y == ssa.Value(s) && recvField(mem, x.X, "suffix"))) {
 					nEq++
-					c.check(reachableWithout(mem, in, exactTrue(mem)) == nil, rule, "IsMember: exact rule compares the whole name", p.instrPos(in), "", "equality test outside the exact branch")
+					okUse, _ := consumedOnlyBehind(mem, x, exactTrue(mem))
+					c.check(okUse && len(exactTrue(mem)) > 0, rule, "IsMember: exact rule compares the whole name", p.instrPos(in), "", "equality test outside the exact branch")
 				}
 			case *ssa.Call:
 				if calleeName(x) == "strings.HasSuffix" {
 					nHS++
-					good := x.Call.Args[0] == ssa.Value(s) && recvField(mem, x.Call.Args[1], "suffix") && reachableWithout(mem, in, exactFalse(mem)) == nil
+					okUse, _ := consumedOnlyBehind(mem, x, exactFalse(mem))
+					good := x.Call.Args[0] == ssa.Value(s) && recvField(mem, x.Call.Args[1], "suffix") && okUse && len(exactFalse(mem)) > 0
 					c.check(good, rule, "IsMember: suffix rule tests HasSuffix(name, own.suffix)", p.instrPos(in), "", "the membership test does not ask whether the name ends with the rule's suffix")
 				}
 			}
@@ -418,7 +427,16 @@ func (c *Ctx) checkProxyRelayGate() {
 	if nDial == 0 {
 		c.undecided(rule, "WebSocket dial in proxy/lib", "-", "none found")
 	}
-	// datachannelHandler reached only through the adaptor; adaptor literal built only in runSession with RelayURL: relayURL
+	// datachannelHandler is reached only with this session's polled relay URL: through the adaptor
+	// (literal built only in runSession with RelayURL: relayURL) or from a closure of runSession
+	// that captures the polled URL
+	var poll *ssa.Call
+	for _, ci := range callsIn(run) {
+		if f := staticCallee(ci); f != nil && f == p.Fn("proxy/lib", "(*SignalingServer).pollOffer") {
+			poll, _ = ci.(*ssa.Call)
+		}
+	}
+	nAdaptor := 0
 	for _, ci := range p.realCallers(dch) {
 		caller := ci.Parent()
 		okAd := caller.Name() == "datachannelHandler" && caller != dch
@@ -433,22 +451,24 @@ func (c *Ctx) checkProxyRelayGate() {
 				okf = f.Name() == "RelayURL"
 			}
 			okAd = okf
+			if okAd {
+				nAdaptor++
+			}
 		}
-		c.check(okAd, rule, "datachannelHandler is called only by the adaptor, with the adaptor's RelayURL", p.instrPos(ci), "", "datachannelHandler is invoked with a relay URL that did not go through runSession's validation")
-	}
-	var poll *ssa.Call
-	for _, ci := range callsIn(run) {
-		if f := staticCallee(ci); f != nil && f == p.Fn("proxy/lib", "(*SignalingServer).pollOffer") {
-			poll, _ = ci.(*ssa.Call)
+		if !okAd && caller.Parent() == run && poll != nil && isResultOfCall(ci.Common().Args[3], poll, 1) {
+			okAd = true
 		}
+		c.check(okAd, rule, "datachannelHandler is called only with the relay URL of this session's poll (adaptor or closure of runSession)", p.instrPos(ci), "", "datachannelHandler is invoked with a relay URL that did not go through runSession's validation")
 	}
 	relF := p.Field("proxy/lib", "dataChannelHandlerWithRelayURL", "RelayURL")
 	nLit := 0
-	for _, s := range storesToField(px, relF) {
-		nLit++
-		c.check(s.Parent() == run && poll != nil && isResultOfCall(s.Val, poll, 1), rule, p.FnName(s.Parent())+" builds the adaptor with the polled relay URL", p.instrPos(s), "", "the adaptor's RelayURL is not the URL returned by this session's poll (or the adaptor is built outside runSession)")
+	if relF != nil {
+		for _, s := range storesToField(px, relF) {
+			nLit++
+			c.check(s.Parent() == run && poll != nil && isResultOfCall(s.Val, poll, 1), rule, p.FnName(s.Parent())+" builds the adaptor with the polled relay URL", p.instrPos(s), "", "the adaptor's RelayURL is not the URL returned by this session's poll (or the adaptor is built outside runSession)")
+		}
 	}
-	if nLit != 1 || poll == nil {
+	if (nAdaptor > 0 && nLit != 1) || poll == nil {
 		c.undecided(rule, "adaptor literal", p.Pos(run.Pos()), fmt.Sprintf("%d stores to dataChannelHandlerWithRelayURL.RelayURL", nLit))
 		return
 	}
@@ -591,4 +611,63 @@ func paramSpill(al *ssa.Alloc) ssa.Value {
 		return nil
 	}
 	return val
+}
+
+// checkProxyPolicyIsConfiguration: the two fields that make up the proxy's relay
+// policy (the accepted hostname pattern and the permission for non-TLS relays)
+// are assigned nowhere but in the proxy's main, from the flags that carry their
+// names, and the permission flag defaults to false. A library function that
+// derives the permission from something else (the operator's own relay URL, the
+// broker's answer) widens what the proxy relays to beyond what it accepted.
+func (c *Ctx) checkProxyPolicyIsConfiguration() {
+	p := c.P
+	rule := "O-3c the proxy's relay policy is what the operator configured"
+	for _, row := range []struct{ field, flagFn, flagName string }{
+		{"AllowNonTLSRelay", "flag.Bool", "allow-non-tls-relay"},
+		{"RelayDomainNamePattern", "flag.String", "allowed-relay-hostname-pattern"},
+	} {
+		f := p.Field("proxy/lib", "SnowflakeProxy", row.field)
+		if f == nil {
+			c.undecided(rule, "SnowflakeProxy."+row.field, "-", "field does not resolve")
+			continue
+		}
+		n, bad := 0, 0
+		for _, st := range storesToField(p.FnsIn(), f) {
+			n++
+			fn := st.Parent()
+			if p.Rel(fn) == "proxy/lib" {
+				bad++
+				c.viol(rule, p.FnName(fn)+" assigns SnowflakeProxy."+row.field, p.instrPos(st), "the library changes its own relay policy: relays outside the pattern the proxy announced, or without TLS although that was not allowed, become acceptable")
+				continue
+			}
+			fromFlag := flows(st.Val, func(v ssa.Value) bool {
+				cc, _, ok := callResult(v)
+				if !ok || calleeName(cc) != row.flagFn {
+					return false
+				}
+				name, okn := constString(cc.Call.Args[0])
+				return okn && name == row.flagName
+			})
+			if !fromFlag {
+				bad++
+				c.viol(rule, p.FnName(fn)+" assigns SnowflakeProxy."+row.field, p.instrPos(st), "the value does not come from the -"+row.flagName+" flag")
+			}
+		}
+		if bad == 0 {
+			if n == 0 {
+				c.okTrivial(rule, "SnowflakeProxy."+row.field+" is assigned only from -"+row.flagName, p.Pos(f.Pos()), "no assignment in the repository")
+			} else {
+				c.ok(rule, "SnowflakeProxy."+row.field+" is assigned only from -"+row.flagName, p.Pos(f.Pos()), fmt.Sprintf("%d assignment(s), none in proxy/lib", n))
+			}
+		}
+	}
+	// the permission is off unless asked for
+	if mainFn := p.Fn("proxy", "main"); mainFn != nil {
+		for _, ci := range callsTo(mainFn, "flag.Bool") {
+			if name, ok := constString(ci.Common().Args[0]); ok && name == "allow-non-tls-relay" {
+				k, okc := ci.Common().Args[1].(*ssa.Const)
+				c.check(okc && k.Value != nil && k.Value.String() == "false", rule, "-allow-non-tls-relay defaults to false", p.instrPos(ci), "", "non-TLS relays are allowed by default")
+			}
+		}
+	}
 }
